@@ -321,7 +321,7 @@ def _build_case(run, rng, name, field, flags, ndocs, schema, storage):
                             if fname == "whole" and frags and len(frags) == 1 and len(frags[0]) == len(text) else []
                         o = {"kind": "highlight", "path": "highlights(%s)" % fname, "text": [ord(c) for c in text],
                              "frags": frags, "marks": marks, "qterms": [tid(t) for t in pick], "occ": occ, "spans_checked": not flags.get("grams"),
-                             "raw": out}
+                             "raw": out, "escaped": []}
                     except Exception as ex:
                         o = {"kind": "error", "path": "highlights(%s)" % fname, "err": type(ex).__name__,
                              "msg": str(ex)[:200]}
@@ -331,16 +331,23 @@ def _build_case(run, rng, name, field, flags, ndocs, schema, storage):
                 try:
                     import html as _html
                     import re as _re
+                    # (a matched token that itself contains markup characters, where the text has one)
+                    mk = [t for t in pool if any(c in t for c in u"<>&")]
+                    if mk:
+                        pick = [rng.choice(mk)] + pick[:1]
+                        hq = query.Or([query.Term("f", t) for t in pick])
                     r = s.search(hq, limit=None, terms=True)
                     r.fragmenter = highlight.WholeFragmenter()
                     r.formatter = highlight.HtmlFormatter(tagname="strong", between=MB)
                     hit = [h for h in r if h.docnum == dn][0]
                     out = hit.highlights("f", top=3)
-                    frags = [[ord(c) for c in _html.unescape(_re.sub(r'</?strong[^>]*>', u"", piece))]
-                             for piece in (out.split(MB) if out else [])]
+                    # the formatter's own tags are exactly <strong class="match termN"> and </strong>
+                    bare = [_re.sub(r'<strong class="match term[0-9]+">|</strong>', u"", piece)
+                            for piece in (out.split(MB) if out else [])]
+                    frags = [[ord(c) for c in _html.unescape(b)] for b in bare]
                     o = {"kind": "highlight", "path": "highlights(whole, HtmlFormatter)", "text": [ord(c) for c in text],
                          "frags": frags, "marks": [], "qterms": [tid(t) for t in pick], "occ": [],
-                         "spans_checked": False, "raw": out}
+                         "spans_checked": False, "raw": out, "escaped": [[ord(c) for c in b] for b in bare]}
                 except Exception as ex:
                     o = {"kind": "error", "path": "highlights(html)", "err": type(ex).__name__, "msg": str(ex)[:200]}
                 qs.append({"q": null, "text": text, "obs": [o]})
